@@ -7,6 +7,7 @@
 #include "../common/ref_fixed.h"
 #include "../common/ref_zone.h"
 #include "../common/tzgen.h"
+#include "../common/posix_corpus.h"
 #include "time_zone_fixed.h"
 #include "time_zone_posix.h"
 
@@ -262,51 +263,6 @@ static void c16_e2e(const std::string& s, hz::Result& r) {
       r.violation("C16:e2e:lookup", "footer " + hz::jstr(s) + " t=" + std::to_string(t) + ": impl off=" + std::to_string(al.offset) + " dst=" + std::to_string(al.is_dst) + " abbr=" + al.abbr + "; ref off=" + std::to_string(m.off) + " dst=" + std::to_string(m.dst) + " abbr=" + m.abbr, ra);
       return;
     }
-  }
-}
-
-static void c16_sentences(bool thorough, std::vector<std::string>* out, std::vector<std::string>* accepted_seeds) {
-  const std::vector<std::string> abbr = {"AB", "ABC", "ABCDEFGH", "<>", "<+03>", "<-0330>", "<A B>", "<", "A1C", "", "abc", "<AB", "A,B"};
-  std::vector<std::string> off;
-  for (const char* sg : {"", "+", "-"}) for (const char* h : {"0", "1", "9", "12", "24", "25", "024", ""}) for (const char* m : {"", ":0", ":59", ":60", ":5", ":"}) for (const char* sc : {"", ":0", ":59", ":60"}) {
-    if (std::string(m).empty() && !std::string(sc).empty()) continue;
-    off.push_back(std::string(sg) + h + m + sc);
-  }
-  const std::vector<std::string> dabbr = {"DST", "<+04>", "AB", "<>", "D5T"};
-  const std::vector<std::string> doff = {"", "4", "-4:30", "+4:30:15", "25", "24", "-24:59:59", "4:60"};
-  const std::vector<std::string> date = {"J0", "J1", "J59", "J60", "J365", "J366", "0", "59", "365", "366", "M1.1.0", "M12.5.6", "M0.1.0", "M13.1.0", "M1.0.0", "M1.6.0", "M1.1.7", "M3.2", "M3", "M3.2.0.1", "J", "M", "", "-1", "J-1", "M3.-2.0"};
-  const std::vector<std::string> tim = {"", "/0", "/2", "/24", "/26", "/167", "/168", "/-1", "/-167", "/-168", "/1:30", "/1:30:45", "/+2", "/2:60", "/", "/2:", "/1:30:60", "/-0:0:1"};
-  auto rule = [](const std::string& d1, const std::string& t1, const std::string& d2, const std::string& t2) { return "," + d1 + t1 + "," + d2 + t2; };
-  const std::string A0 = "EST", O0 = "5", DA0 = "EDT", DO0 = "", R0 = rule("M3.2.0", "", "M11.1.0", "");
-  const std::string A1 = "<+0330>", O1 = "-3:30", DA1 = "<+0430>", DO1 = "-4:30", R1 = rule("J79", "/24", "265", "/-1");
-  std::set<std::string> S;
-  for (int setting = 0; setting < 2; ++setting) {
-    const std::string &A = setting ? A1 : A0, &O = setting ? O1 : O0, &DA = setting ? DA1 : DA0, &DO = setting ? DO1 : DO0, &R = setting ? R1 : R0;
-    for (auto& x : abbr) { S.insert(x + O); S.insert(x + O + DA + DO + R); }
-    for (auto& x : off) { S.insert(A + x); S.insert(A + x + DA + DO + R); }
-    for (auto& x : dabbr) for (auto& y : doff) { S.insert(A + O + x + y + R); S.insert(A + O + x + y); S.insert(A + O + x + y + ",M3.2.0"); }
-    for (auto& d : date) for (auto& t : tim) {
-      S.insert(A + O + DA + DO + rule(d, t, "M11.1.0", ""));
-      S.insert(A + O + DA + DO + rule("M3.2.0", "/1", d, t));
-    }
-    // structure: dropped / extra parts, trailing bytes
-    for (const char* tail : {"", ",", ",M3.2.0", ",M3.2.0,", ",M3.2.0,M11.1.0,M12.1.0", ",M3.2.0,M11.1.0 ", ",M3.2.0,M11.1.0/", ",M3.2.0/2/3,M11.1.0", ",,", "/2", ",M3.2.0;M11.1.0", ",M3.2.0,M11.1.0x"})
-      S.insert(A + O + DA + DO + tail);
-    S.insert(":" + A + O);
-    S.insert(" " + A + O);
-    S.insert(A + " " + O);
-  }
-  if (thorough) {
-    // pairs: every date x every time for BOTH positions simultaneously (reduced), every offset for std AND dst
-    for (auto& d1 : date) for (auto& d2 : date) S.insert(A0 + O0 + DA0 + rule(d1, "/3", d2, "/-1"));
-    for (auto& t1 : tim) for (auto& t2 : tim) S.insert(A0 + O0 + DA0 + rule("J60", t1, "300", t2));
-    for (auto& x : off) for (auto& y : off) S.insert("AAA" + x + "BBB" + y + R0);
-    for (auto& x : abbr) for (auto& y : abbr) { S.insert(x + "3" + y + ",0,1"); S.insert(x + "-3" + y + "4,0,1"); }
-  }
-  for (auto& s : S) {
-    out->push_back(s);
-    ref::Posix w;
-    if (ref::parse_posix(s, &w)) accepted_seeds->push_back(s);
   }
 }
 
